@@ -12,7 +12,7 @@ for n in "${names[@]}"; do cat /tmp/wt/$n.keep.log | tail -1; git -C /repo workt
 git -C /repo worktree prune
 cd /verif
 half=$(( (${#names[@]} + 1) / 2 ))
-( for n in "${names[@]:0:$half}"; do tools/seed_try.sh $n; done > /tmp/round.a.log 2>&1 ) &
-( for n in "${names[@]:$half}"; do tools/seed_try.sh $n; done > /tmp/round.b.log 2>&1 ) &
+( for n in "${names[@]:0:$half}"; do tools/seed_try.sh $n; done > /tmp/round.$$.a.log 2>&1 ) &
+( for n in "${names[@]:$half}"; do tools/seed_try.sh $n; done > /tmp/round.$$.b.log 2>&1 ) &
 wait
-cat /tmp/round.a.log /tmp/round.b.log | cut -c1-330
+cat /tmp/round.$$.a.log /tmp/round.$$.b.log | cut -c1-330
